@@ -546,7 +546,7 @@ func racePass() {
 	if os.Getenv("VERIF_TIER") == "thorough" {
 		iters = 200
 	}
-	dir, _ := os.MkdirTemp("", "c14race-")
+	dir, _ := os.MkdirTemp(os.Getenv("C14_SCRATCH"), "c14race-")
 	defer os.RemoveAll(dir)
 	scratch = dir
 	n := 0
@@ -769,7 +769,7 @@ func main() {
 	shutdownPhase()
 	// race pass in the -race binary
 	cmd := exec.Command("/verif/.build/bin/c14race")
-	cmd.Env = append(os.Environ(), "C14_RACEPASS=1", "VERIF_TIER="+run.Tier, "GORACE=halt_on_error=0 exitcode=0")
+	cmd.Env = append(os.Environ(), "C14_RACEPASS=1", "C14_SCRATCH="+dir, "VERIF_TIER="+run.Tier, "GORACE=halt_on_error=0 exitcode=0")
 	outb, rerr := cmd.CombinedOutput()
 	out := string(outb)
 	run.Eval(1)
@@ -802,5 +802,6 @@ func main() {
 	run.Rule("(a) for each of 8 (thorough 10) scenarios of 2-3 threads (sign with two keys, same key, alias, list/keyinfo, health check + /health, key-cache expiry between signs, Close (then Close again) during a health check and /health, three signers): every interleaving with <=2 preemptions (thorough 3 for 2-thread scenarios) over the hooked mutex/token/audit-file operations; oracle per request = result in isolation (patch applied to that request's body verifies, names its key, digest and description), audit lines = successful signs; (b) free-running -race pass; (c) daemon.Close released at 2 hooked points of an in-flight request on a real loopback daemon. distinct_nontrivial = schedules with at least one preemption")
 	run.Assume("net/http's own goroutines are not under the scheduler; the shutdown clause is explored only at the handler's hooked points")
 	run.Assume("the 'no data race' clause rests on the race detector over free-running executions (not exhaustive)")
+	os.RemoveAll(dir) // Finish exits the process: deferred calls do not run
 	run.Finish()
 }
